@@ -24,11 +24,23 @@ def strain(v0, v):
     return ((v0 / v) ** (2.0 / 3.0) - 1.0) / 2.0
 
 
-def write_inputs(tmp, V, E, table=None, mass=250.0):
+def write_inputs(tmp, V, E, table=None, mass=250.0, notation=0):
     from cij.io.traditional import models, qha_input
     nv = len(V)
     vols = [models.VolumeData(0.0, float(V[i]), float(E[i]), [models.QPointData((0.0, 0.0, 0.0), [0.0, 0.0, 0.0])]) for i in range(nv)]
     qha_input.write_energy(os.path.join(tmp, "input01"), models.QHAInputData(nv, 1, 3, 1, 1, [models.QPointWeight((0.0, 0.0, 0.0), 1.0)], vols))
+    if notation:
+        # the same file with the energies (notation 1) or pressure, volume and energy (notation 2) in exponent notation, as Fortran / %E writers produce them
+        import re as _re
+        k = iter(range(nv))
+
+        def repl(m):
+            i = next(k)
+            return ("P= %12.6f V= %12.6f E= %.10E" % (0.0, V[i], E[i])) if notation == 1 else ("P= %.6E V= %.10E E= %.10E" % (0.0, V[i], E[i]))
+        path = os.path.join(tmp, "input01")
+        text = _re.sub(r"^P=.*$", repl, open(path).read(), flags=_re.M)
+        with open(path, "w") as fp:
+            fp.write(text)
     if table is not None:
         cols, Vt, rows = table
         lines = ["title", "%.6f %d %.4f" % (Vt[0], len(Vt), mass), "V " + " ".join(cols)]
@@ -560,7 +572,7 @@ def run(s):
                     coef = numpy.polyfit(strain(Vt[0], Vt), vals_t, 2)
                     mods[nm] = (lambda v, coef=coef, v0=Vt[0]: numpy.polyval(coef, strain(v0, v)))
                 table = (names, Vt, [[raw[nm](v) for nm in names] for v in Vt])
-            write_inputs(tmp, V, [Efun(v) for v in V], table, mass_tab)
+            write_inputs(tmp, V, [Efun(v) for v in V], table, mass_tab, notation=(t // 4) % 3)
             mode = ["none", "volume", "pressure"][t % 3]
             ntv = rnd.choice([11, 51, 201, 401]) if mode != "none" else rnd.choice([101, 201, 401])
             args = [os.path.join(tmp, "input01")] + ([os.path.join(tmp, "input02")] if use_table else []) + ["-I", mode, "-n", str(ntv)]
@@ -673,6 +685,11 @@ def run(s):
     s.bounded_standin("C18.run_static_table", "%d synthetic data sets (6-11 volumes listed descending / ascending / shuffled, energies and moduli exactly quadratic in Eulerian strain), "
                       "modes none / volume / pressure in turn, grid sizes 11-401, with/without static table, cubic system option, cell-mass option; seed %d" % (n, s.seed),
                       evals, distinct, fails, ["cli/static.main"])
+    # "an optional crystal system is applied": the packaged relation tables are the Laue invariants (C08's obligation on the data files, registered here as well)
+    from props import C08
+    sub = core.SubSession(s, lambda n: n.replace("C08.", "C18.filling."), lambda n: n.startswith("C08.relations_equal_invariants["))
+    sub.__dict__["relations_only"] = True
+    C08.run(sub)
     s.min_obligations = 4
 
 
